@@ -52,6 +52,16 @@ def poly(t):
         return _norm(out)
     if t[0] == 'un' and t[1] == 'Neg':
         return _norm({k: -v for k, v in poly(t[2]).items()})
+    if t[0] == 'field' and t[2] == '0' and t[1][0] == 'next':
+        # `for (i, v) in (a..b).enumerate()`: the position is the value minus the start of the range
+        en = q.unwrap_into_iter(t[1][1])
+        if en[0] == 'call' and en[1] == 'std::iter::Iterator::enumerate' and len(en[2]) == 1:
+            rg = q.unwrap_into_iter(en[2][0])
+            if rg[0] == 'agg' and rg[1] == 'std::ops::Range':
+                out = dict(poly(('field', t[1], '1')))
+                for k, v in poly(dict(rg[3])['start']).items():
+                    out[k] = out.get(k, 0) - v
+                return _norm(out)
     return {(canon(t),): 1}
 
 
@@ -74,6 +84,11 @@ def show(p):
 def loop_var_end(t):
     """t is the loop variable of `for v in 0..E` (or start..E): returns (start, E) cast-stripped, else None"""
     t = strip_casts(t)
+    if t[0] == 'field' and t[2] == '1' and t[1][0] == 'next':
+        # the value half of `for (i, v) in (S..E).enumerate()`
+        en = q.unwrap_into_iter(t[1][1])
+        if en[0] == 'call' and en[1] == 'std::iter::Iterator::enumerate' and len(en[2]) == 1:
+            t = ('next', en[2][0])
     if t[0] != 'next':
         return None
     rg = q.unwrap_into_iter(t[1])
